@@ -336,6 +336,17 @@ class LinOracles(Oracles):
         self.observe("cmp", (name, v))
         return v
 
+    def unknown_cmp(self, it, a, b):
+        lt = self.unknown_compare(it, "Lt", a, b)
+        if lt is None:
+            return None
+        if lt:
+            return 0
+        eq = self.unknown_compare(it, "Eq", a, b)
+        if eq is None:
+            return None
+        return 1 if eq else 2
+
     def truth(self, op, da, ca):
         """for specifications: truth of a predicate under the refined intervals (None if undetermined)"""
         return self.decide(op, {k: v for k, v in da.items() if v != 0}, ca)
